@@ -3,7 +3,7 @@
   Property theorems only (helpers: Gts/Lemmas/ParsSafe*.lean, Fuel.lean, Date.lean, SelShift.lean;
   regenerated tables: Gts/Bridge/Tables.lean; panic-site inventory: Gts/Bridge/PanicSites.lean).
 
-  What is proved here, for ALL byte strings, about the hand-written models of the string parsers
+  What is proved here, for ALL byte strings, about the hand-written models of the STRING parsers
   (`gts.AsLocation` / `ParseLocation`, `AsModifier`, `tryLocation` / `AsLocator`,
   `shiftSelector` / `Selector`, `seqio.AsDate`, `gts.AsMolecule`, `gts.AsTopology`):
 
@@ -22,15 +22,43 @@
   * ERRORS ARE VALUES.  `asDate` accepts exactly calendar dates and reads back every date stamp
     the writer prints.
 
+  THE RECORD SCANNERS (`seqio.GenBankParser` with `genbankLocusParser`, every field sub-parser,
+  `tryAllParsers`, the ORIGIN reader, `INSDCTableParser`; model: Gts/Model/GenBankParse.lean,
+  InsdcParse.lean, Origin.lean; lemmas: Gts/Lemmas/ParsSorted.lean, GbSafe*.lean, GbFuel.lean,
+  GbOriginDecode.lean, FastaScan.lean):
+
+  * NO PANIC, for every byte string shorter than 10^9 bytes, from every sorted state
+    (`genbankParser_nopanic_partial`, `readAll_nopanic_partial`, `table_nopanic`,
+    `originField_nopanic`, `validateOrigin_nopanic`).  The field parsers `Clear` the stack and `Pop`
+    frames that are not theirs, so the frame invariant `Fr` of the string parsers is replaced by
+    the S-invariant "all saved positions sorted and bounded" (`Fr L [] 0`); `patchFrames` (the
+    DEFINITION body joined in place) keeps every frame's length because the LOCUS parser reports
+    an indent of at least five columns.  The ORIGIN reader's three panic sites need the range check
+    of `GenBankParser` and `length < 10^9`, which follows from the bytes left.
+  * INTERNAL CONSISTENCY (`genbank_length_consistent`, `genbank_sequence_decodes`,
+    `originField_decodes`, `accepted_block_is_written`): a returned record has
+    declared length = `Origin.Len()` = number of residues `Origin.Bytes()` decodes (no panic), or
+    no sequence at all next to a CONTIG line.
+  * FUEL (`bodyMore_fuel_stable`, `taxonMore_fuel_stable`, `dblinkMore_fuel_stable`,
+    `parseAll_fuel_stable_partial`, `recordLoop_fuel_partial`).
+
   PARTIAL, named as such (DESIGN.md section 6, C07):
   * "time proportional to the input" is NOT a Lean theorem.  What is proved is termination with an
     explicit measure; no step count is stated.
   * stack exhaustion of the Go run time on deeply nested `complement(` and the memory held by
     leaked `Push` frames are below the level of the model; they are covered by the depth sweep of
     the harness (recorded in the evidence), not by a theorem.
-  * the GenBank / FASTA record scanners are not modelled here (C01 models the record): for them C07
-    rests on the panic-site inventory and on the never-panic / never-hang / internal-consistency
-    oracle of the harness.
+  * the bound of 10^9 bytes on the record scanner's input is needed: beyond it `validateOrigin`
+    indexes past its buffer on a well-formed block (`validateOrigin_wide_index_panics`; a finding
+    about the code, it needs more than a gigabyte of input).
+  * the fuel `2n+2` of the record loop is NOT adequate in general (`recordLoop_fuel_full_refuted`):
+    leaked location-parser frames plus a SOURCE field without ORGANISM make the scanner re-read
+    lines, quadratically often (a finding about the code: a 28 KB record takes 22 s).  Proved
+    instead: running out of fuel can only show up as the error value.  The loops of the qualifier
+    and feature-table readers (`qualifiers`, `tableMore`, `literalMore`) and `refSubfields` have
+    no fuel theorem.
+  * the FASTA scanner is covered on its modelled fragment (`fasta_scan_nopanic`); K7C is about
+    content, not panics.
 -/
 import Gts.Lemmas.Fuel
 import Gts.Lemmas.Date
@@ -39,6 +67,8 @@ import Gts.Model.MolTop
 import Gts.Bridge.Tables
 import Gts.Bridge.PanicSites
 import Gts.Lemmas.GbFuel
+import Gts.Lemmas.GbOriginDecode
+import Gts.Lemmas.FastaScan
 namespace Gts.C07
 open Gts Pars
 
@@ -274,6 +304,16 @@ theorem validateOrigin_nopanic (p : Bytes) (length : Nat) (hL : length < 10 ^ 9)
     Origin.validateOrigin p (length : Int) ≠ .error .panic :=
   Origin.validateOrigin_ne_panic p length hL (by rwa [Origin.toNat_tl] at hp)
 
+/-- the bound `length < 10^9` of `validateOrigin_nopanic` cannot be dropped: for a declared length
+of 1000000021 the last line index has ten digits; in its last round (`i = 1000000020`, one residue
+to go) the loop of `validateOrigin` stands before the last `toOriginLength(1) = 12` bytes of its
+buffer, and on the well-formed line `1000000021 a` (ten digits, a blank, the residue: twelve bytes)
+`p[offset] != '\n'` indexes one byte past the end: a run-time panic. -/
+theorem validateOrigin_wide_index_panics :
+    Origin.validateLines 1000000021 1 1000000020 (GenBank.bs "1000000021 a") = .error .panic ∧
+      (GenBank.bs "1000000021 a").length = (Origin.toOriginLength (1000000021 - 1000000020)).toNat := by
+  decide +kernel
+
 /-- the ORIGIN reader `makeGenbankOriginParser(length)` for a declared length that passed the
 range check of `GenBankParser` (`0 ≤ length`), from any sorted state with fewer than 10^9 bytes
 left, for any bytes: never a panic (not the negative `Request`, not `validateOrigin`'s indexing,
@@ -379,6 +419,55 @@ example : Sorted (PS.mk sampleRecord []).rest.length (PS.mk sampleRecord []).stk
   refine ⟨trivial, ?_⟩
   decide +kernel
 
+/-! ## the sequence of an accepted record decodes to the declared number of residues -/
+
+/-- `validateOrigin` accepts nothing but written blocks: a buffer of `toOriginLength(L)` bytes
+that it accepts (`L < 10^9`) is byte for byte the block `NewOrigin` writes for `L` printable
+residues … -/
+theorem accepted_block_is_written (b : Bytes) (L : Nat) (hL : L < 10 ^ 9)
+    (hb : b.length = (Origin.toOriginLength (L : Int)).toNat)
+    (h : Origin.validateOrigin b (L : Int) = .ok ()) :
+    ∃ p, b = Origin.originStream p ∧ (∀ c ∈ p, Origin.isBase c = true) ∧ p.length = L :=
+  Origin.validateOrigin_inv b L hL (by rw [hb, Origin.toNat_tl]) h
+
+/-- … and whatever the ORIGIN reader `makeGenbankOriginParser(length)` returns (fast or slow
+path, `0 ≤ length < 10^9`) is such a block: `Origin.Bytes()` on it does not panic and yields
+exactly `length` printable residues. -/
+theorem originField_decodes (length : Nat) (depth : Nat) (hL : length < 10 ^ 9) (s s' : PS)
+    (b : Bytes) (h : (GenBank.originField (length : Int) depth).run' s = (.ok b, s')) :
+    ∃ p, Origin.originBytes b = .ok p ∧ p.length = length ∧ (∀ c ∈ p, Origin.isBase c = true) ∧
+      b = Origin.originStream p := by
+  have := GenBank.originField_accepted length depth hL s
+  unfold WP at this
+  rw [h] at this
+  obtain ⟨hv, hl⟩ := this b rfl
+  exact Origin.accepted_decodes b length hL hl hv
+
+/-- INTERNAL CONSISTENCY, residues: every record `GenBankParser` returns whose LOCUS line declares
+fewer than 10^9 residues carries a sequence that `Origin.Bytes()` decodes WITHOUT a panic to
+exactly `Origin.Len()` residues, all printable — together with `genbank_length_consistent`:
+declared length = `Len()` = number of residues (or no sequence next to a CONTIG line). -/
+theorem genbank_sequence_decodes (reg : GenBank.Registry) (s : PS) (r : GenBank.Record)
+    (reg' : GenBank.Registry) (s' : PS)
+    (h : (GenBank.genbankParser reg).run' s = (.ok (r, reg'), s')) :
+    ∃ n, declaredLength s = some n ∧ (n < 10 ^ 9 →
+      ∃ p, r.origin.bytes = .ok p ∧ (p.length : Int) = r.origin.len ∧
+        ∀ c ∈ p, Origin.isBase c = true) := by
+  obtain ⟨l, s1, hl, hd⟩ := GenBank.genbankParser_decodes reg s r reg' s' h
+  refine ⟨l.length, ?_, hd⟩
+  unfold declaredLength
+  rw [hl]
+
+/-- non-vacuity: the sample record's sequence decodes to `acgt`; the block of the sample is
+accepted by `validateOrigin` for `L = 4` and has `toOriginLength 4 = 15` bytes -/
+example : ((GenBank.genbankParser GenBank.Registry.default).run' ⟨sampleRecord, []⟩).1.toOption.map
+      (fun r => r.1.origin.bytes) = some (.ok [97, 99, 103, 116]) ∧
+    Origin.validateOrigin (GenBank.bs "        1 acgt\n") 4 = .ok () ∧
+    (GenBank.bs "        1 acgt\n").length = (Origin.toOriginLength 4).toNat ∧
+    ((GenBank.originField 4 12).run' ⟨GenBank.bs "ORIGIN      \n        1 acgt\n//\n", []⟩).1 =
+      .ok (GenBank.bs "        1 acgt\n") := by
+  decide +kernel
+
 /-! ## the loops of the GenBank reader: fuel ("never hangs") -/
 
 /- FULL statement (same shape as `loc_fuel_stable`), which is FALSE:
@@ -468,5 +557,19 @@ example : Sorted GenBank.rescanState.rest.length GenBank.rescanState.stk ∧
       (fun r => r.1.length) = some 2 := by
   refine ⟨⟨Nat.le_refl _, Nat.le_refl _, Nat.le_refl _, trivial⟩, ?_⟩
   decide +kernel
+
+/-! ## FASTA streams -/
+
+/-- `seqio.NewScanner(seqio.FastaParser, r)` over ANY byte string, and `seqio.NewAutoScanner(r)`
+over any byte string that does not begin with `LOCUS` (the modelled fragment of the auto scanner;
+on `LOCUS…` it continues with `GenBankParser`, see `genbankParser_fresh_nopanic_partial`): the scan
+never reports a panic.  (Every single `FastaParser` call: `Gts.C17.parse_never_panics`.) -/
+theorem fasta_scan_nopanic (auto : Bool) (text : Bytes) : Fasta.scanAll auto text ≠ .panic :=
+  Fasta.scanAll_ne_panic auto text
+
+/-- non-vacuity: an arbitrary byte salad is scanned to an error, a two-record stream to its records -/
+example : Fasta.scanAll true [0, 255, 62, 10, 13] = .done [] false ∧
+    Fasta.scanAll false [62, 97, 10, 65, 67, 10, 62, 98, 10, 71, 10] =
+      .done [([97], [65, 67]), ([98], [71])] true := by decide +kernel
 
 end Gts.C07
